@@ -71,7 +71,11 @@ int main(int argc, char **argv)
             else if (routine == "bettergoal") ret = ps.findBetterGoal(*path, P(0, 0.2), (unsigned)P(1, 10), P(2, 0.33), P(3, 0.005));
             else if (routine == "simplifymax") ret = ps.simplifyMax(*path);
             else if (routine == "simplify") ret = ps.simplify(*path, P(0, 0.3));
-            else if (routine == "interpolate") path->interpolate((unsigned)P(0, 10));
+            else if (routine == "interpolate")
+            {   // a negative parameter -k asks for (current size + k) states: the regime in which the per-segment cap binds
+                long req = (long)P(0, 10); if (req < 0) req = (long)path->getStateCount() - req;
+                std::cout << "REQUEST " << req << "\n"; path->interpolate((unsigned)req);
+            }
             else if (routine == "interpolate0") path->interpolate();
             else if (routine == "subdivide") path->subdivide();
             else if (routine == "hybridize")
@@ -92,6 +96,14 @@ int main(int argc, char **argv)
             while (std::getline(fl, l)) std::cout << "O" << l << "\n";
             std::vector<long> out_ids; for (auto *s : path->getStates()) out_ids.push_back(id_of(s));
             std::cout << "OIDS"; for (long i : out_ids) std::cout << " " << i; std::cout << "\n";
+            if (routine == "interpolate" || routine == "interpolate0" || routine == "subdivide")
+            {   // segment lengths of the input (as PathGeometric::length sums them) and new states per input segment
+                std::cout << "SEGLENS"; for (std::size_t i = 0; i + 1 < input.getStateCount(); ++i) std::cout << " " << hexd(w.si->distance(input.getState(i), input.getState(i + 1))); std::cout << "\n";
+                std::cout << "COUNTS"; std::size_t pos = 0; bool okc = !out_ids.empty() && !in_ids.empty() && out_ids[0] == in_ids[0];
+                for (std::size_t i = 1; okc && i < in_ids.size(); ++i)
+                { std::size_t q = pos + 1; while (q < out_ids.size() && out_ids[q] != in_ids[i]) ++q; if (q >= out_ids.size()) { okc = false; break; } std::cout << " " << (q - pos - 1); pos = q; }
+                std::cout << " | " << (okc && pos + 1 == out_ids.size() ? 1 : 0) << "\n";
+            }
             std::cout << "KEPT " << (out_ids.empty() || in_ids.empty() ? 0 : (out_ids.front() == in_ids.front() ? 1 : 0)) << " " << (out_ids.empty() || in_ids.empty() ? 0 : (out_ids.back() == in_ids.back() ? 1 : 0)) << "\n";
             std::cout << "END" << std::endl;
             w.space->freeState(s0); w.space->freeState(g0);
